@@ -299,7 +299,7 @@ Proof.
   assert (Hincl : incl l hs).
   { intros p Hp. unfold l in Hp. apply in_map_iff in Hp. destruct Hp as (v & <- & Hv). apply in_seq in Hv.
     apply (g_hist HG i sl); [assumption|assumption|lia]. }
-  pose proof (NoDup_incl_length Hnd Hincl) as Hl. unfold l in Hl. rewrite map_length, seq_length in Hl. lia.
+  pose proof (NoDup_incl_length Hnd Hincl) as Hl. unfold l in Hl. rewrite map_length, seq_length in Hl. rewrite <- (N2Nat.id (s_ver sl)). unfold N.le. rewrite <- Nat2N.inj_compare. apply Nat.compare_le_iff. exact Hl.
 Qed.
 
 (* a new entity (i, v) becomes alive in archetype ai; no commands are pending *)
